@@ -427,6 +427,14 @@ pub fn run_sequence_tagged(r: &mut Rng, tc: &TreeCfg, check: &str, witness: Opti
                         return false;
                     }
                 }
+                if r.chance(1, 4) {
+                    // audit the on-disk state: a checkpoint writes everything back and empties the cache
+                    if let Err(e) = pager.flush() {
+                        fail("map", "flush-failed", e, &ops);
+                        return false;
+                    }
+                    report::count("audits_after_checkpoint", 1);
+                }
                 match audit(&pager, &[tree.root()], Some(model.len())) {
                     Ok(a) => {
                         report::count("audits", 1);
@@ -513,6 +521,14 @@ pub fn drop_reuse(r: &mut Rng, n1: usize, n2: usize, payload_len: usize, witness
         if let Err(e) = a.dealloc() {
             fail("dealloc-failed", e);
             return false;
+        }
+        // half of the runs audit what is on disk (checkpoint = cache cleared), the others what is in the cache
+        if r.chance(1, 2) {
+            if let Err(e) = pager.flush() {
+                fail("flush-failed", e);
+                return false;
+            }
+            report::count("audits_after_checkpoint", 1);
         }
         if let Err((inv, d)) = audit(&pager, &[], None) {
             fail(&inv, format!("after releasing the first tree (all {} pages must be free): {}", pages_before_drop - 1, d));
